@@ -22,6 +22,9 @@ TMPL = {
     "y": '<wxs module="n" src="./s_{name}"/><v id="{{{{iota}}}}" style="{{{{kappa}}}}" hidden="{{{{lambda}}}}" data:a="{{{{mu}}}}" data:b="{{{{nu}}}}"'
          ' mark:c="{{{{xi}}}}">{{{{omicron}}}}{{{{pi}}}}{{{{rho}}}}</v><slot name="{{{{sigma}}}}" a="{{{{tau}}}}"/>'
          '<block wx:if="{{{{upsilon}}}}"><u>{{{{phi}}}}</u></block><block wx:else>{{{{chi}}}}{{{{n.f(psi)}}}}</block>',
+    # no script module at all: whether the script runtime is emitted must not depend on which file came last
+    "z": '<v id="{{{{aa}}}}" class="{{{{bb}}}}">{{{{cc}}}}</v><block wx:for="{{{{dd}}}}"><w>{{{{item}}}}{{{{ee}}}}</w></block>'
+         '<template name="u{name}"><v a="{{{{ff}}}}"/></template><template is="u{name}" data="{{{{ff: gg}}}}"/>',
 }
 PATHS = {"a": "p/a", "b": "p/b", "c": "q/c"}
 SCRIPT = {"x": "exports.f = function (v) { return v }", "y": "module.exports = { f: function (v) { return [v] } }"}
@@ -33,13 +36,22 @@ def ops_of(hist):
         if h[0] == "add_tmpl":
             p = PATHS[h[1]]
             ops.append(["add_tmpl", p, TMPL[h[2]].format(name=h[1])])
-            ops.append(["add_script", "p/s_" + h[1], SCRIPT[h[2]]])
+            if h[2] == "y":         # only this content refers to an external script
+                ops.append(["add_script", "p/s_" + h[1], SCRIPT[h[2]]])
+            else:
+                ops.append(["remove_script", "p/s_" + h[1]])
         elif h[0] == "remove_tmpl":
             ops.append(["remove_tmpl", PATHS[h[1]]])
             ops.append(["remove_script", "p/s_" + h[1]])
         else:
             ops.append([h[0]])
     return ops
+
+
+def pure(hist):
+    """every path added exactly once, nothing removed"""
+    added = [h[1] for h in hist if h[0] == "add_tmpl"]
+    return len(added) == len(set(added)) and not any(h[0] == "remove_tmpl" for h in hist)
 
 
 def digest(r):
@@ -49,8 +61,9 @@ def digest(r):
 
 def run(tier, seed, replay):
     ck = vlib.Check("C20", tier, seed)
-    ck.rule = ("histories = every behaviour of spec/MCGroup.tla (3 paths, 2 contents, <= 4-5 operations incl. remove and "
-               "import-group), each replayed in N fresh processes; per final map all artefacts (per-template objects, "
+    ck.rule = ("histories = every behaviour of spec/MCGroup.tla (3 paths, 3 contents - inline script module, external script, no script -, <= 4-5 operations incl. remove and "
+               "import-group), each replayed in N fresh processes; per final map - over the histories that add each file once, i.e. insertion "
+               "orders and import-group splits; histories with replacement / removal are compared with themselves across processes - all artefacts (per-template objects, "
                "bundle, wx bundle, runtime, globals, scripts) must hash equal; stylesheets = repository inputs x option sets "
                "x N processes; non-trivial = final map with >= 2 files reached by >= 2 histories")
     ck.assumptions = ["fresh processes draw fresh RandomState seeds; each TmplGroup instance within a process does too"]
@@ -79,6 +92,11 @@ def run(tier, seed, replay):
         for h, r in zip(hists, res):
             ck.evaluations += 1
             key = json.dumps(h["final"])
+            if not pure(h["hist"]):
+                # C20 quantifies over insertion orders of the same files (and import-group = add).  A history that replaced or
+                # removed a file is only required to be reproducible (the same history in every process): the group may
+                # legitimately keep the script runtime once a file with scripts has been seen
+                key = json.dumps({"final": h["final"], "hist": h["hist"]})
             if r["panic"]:
                 continue
             by_final.setdefault(key, []).append((digest(r), h["hist"], r))
@@ -87,17 +105,18 @@ def run(tier, seed, replay):
         digs = {}
         for d, h, r in lst:
             digs.setdefault(d, (h, r))
-        if len(json.loads(key)) >= 2 and len({json.dumps(h) for _, h, _ in lst}) >= 2:
+        kk = json.loads(key)
+        if isinstance(kk, list) and len(kk) >= 2 and len({json.dumps(h) for _, h, _ in lst}) >= 2:
             ck.nontrivial(key)
         if len(digs) > 1:
             (d1, (h1, r1)), (d2, (h2, r2)) = list(digs.items())[:2]
             which = [k for k in (r1.get("art") or {}) if json.dumps(r1["art"].get(k), sort_keys=True) != json.dumps((r2.get("art") or {}).get(k), sort_keys=True)]
-            ck.report({"sig": "artefacts-differ", "final": json.loads(key), "hists": [h1, h2], "artefacts": which,
+            ck.report({"sig": "artefacts-differ", "final": kk if isinstance(kk, list) else kk["final"], "hists": [h1, h2], "artefacts": which,
                        "distinct": len(digs)},
                       "the same final group %s gave %d different artefact sets (differing: %s); e.g. histories %s and %s" % (
                           key, len(digs), which, json.dumps(h1), json.dumps(h2)))
         elif len(ck.samples) < 2:
-            ck.sample({"final": json.loads(key), "histories": len(lst), "digest": list(digs)[0]})
+            ck.sample({"final": kk if isinstance(kk, list) else kk["final"], "histories": len(lst), "digest": list(digs)[0]})
     # ---- stylesheets
     sheets = corpus.css_snippets()
     optsets = [{}, {"class_prefix": "p", "class_prefix_sign": "S"}, {"convert_host": True, "host_is": "h", "import_sign": "I", "rpx_ratio": 375}]
